@@ -1,6 +1,58 @@
-From LD Require Import Base F32 Data Model Ops Bucket Eval EvalFacts.
-(* first obligation; the full statements of DESIGN.md section 6 are added as they are proved *)
-Theorem C10_invalid_ctx_untouched : forall re_ok re_match o E P f,
-  run re_ok re_match o E P CInvalid f = Done (mkoutcome (err_detail KUserNotSpecified) false []).
-Proof. exact run_invalid. Qed.
-Print Assumptions C10_invalid_ctx_untouched.
+(* C10 Recursion safety *)
+From LD Require Import Base F32 Data Model Ops Bucket Eval EvalFacts Safety WellFormed Pure Order Cycles.
+
+(* termination for every prerequisite graph and every segment graph: with the fuel run supplies, never OutOfFuel *)
+Theorem C10_terminates : forall re_ok re_match o E P c f, exists out, run re_ok re_match o E P c f = Done out.
+Proof. exact run_total. Qed.
+Print Assumptions C10_terminates.
+
+Theorem C10_segment_fuel_adequate : forall re_ok re_match o E P c fuel chain sg,
+  NoDup chain -> incl chain (seg_keys E) -> In (sg_key sg) (seg_keys E) ->
+  (List.length (seg_keys E) < fuel + List.length chain)%nat ->
+  safe (seg_contains re_ok re_match o E P c fuel chain sg).
+Proof. exact safe_seg_contains. Qed.
+Print Assumptions C10_segment_fuel_adequate.
+
+Theorem C10_flag_fuel_adequate : forall re_ok re_match o E P c fuel chain f,
+  NoDup (chain ++ [f_key f]) -> incl (tl (chain ++ [f_key f])) (flag_keys E) ->
+  (List.length (flag_keys E) + 2 <= fuel + List.length chain)%nat ->
+  safe (eval_flag re_ok re_match o E P c fuel chain f).
+Proof. exact safe_eval_flag. Qed.
+Print Assumptions C10_flag_fuel_adequate.
+
+(* re-entering a flag on the current path aborts ... *)
+Theorem C10_prerequisite_cycle_aborts : forall o E ev f chain' p rest pf st,
+  assoc (pq_key p) (e_flags E) = Some pf -> mem_str (f_key pf) chain' = true ->
+  fst (prereq_loop o E ev f chain' (p :: rest) st) = Done PAbort.
+Proof. exact prereq_cycle_aborts. Qed.
+Print Assumptions C10_prerequisite_cycle_aborts.
+
+(* ... an aborted nested evaluation aborts its dependent without recording an event for it ... *)
+Theorem C10_abort_propagates_without_event : forall o E ev f chain' p rest pf st d st1,
+  assoc (pq_key p) (e_flags E) = Some pf -> mem_str (f_key pf) chain' = false ->
+  ev pf (mkst (s_cache st) (s_status st) (OGetFlag (pq_key p) :: s_trace st)) = (Done (d, false), st1) ->
+  prereq_loop o E ev f chain' (p :: rest) st = (Done PAbort, st1).
+Proof. exact prereq_abort_propagates. Qed.
+Print Assumptions C10_abort_propagates_without_event.
+
+(* ... and an aborted evaluation surfaces as MALFORMED_FLAG with no value and no index, never another error kind *)
+Theorem C10_abort_is_malformed : forall re_ok re_match o E P c f d st1,
+  c <> CInvalid ->
+  eval_flag re_ok re_match o E P c (flag_fuel E) [] f st0 = (Done (d, false), st1) ->
+  exists out, run re_ok re_match o E P c f = Done out /\
+              d_value (out_detail out) = JNull /\ d_index (out_detail out) = None /\
+              rs_kind (d_reason (out_detail out)) = RError KMalformed.
+Proof. exact run_abort_is_malformed. Qed.
+Print Assumptions C10_abort_is_malformed.
+
+(* a segment found on its own path is a cycle; whatever surfaces from a segment evaluation started on an empty path
+   is MALFORMED_FLAG (the cycle error is always wrapped by the enclosing segment rule) *)
+Theorem C10_segment_cycle : forall re_ok re_match o E P c n chain sg,
+  mem_str (sg_key sg) chain = true -> p_seg re_ok re_match o E P c (S n) chain sg = Done (Err (ECircSeg (sg_key sg))).
+Proof. exact p_seg_cycle. Qed.
+Print Assumptions C10_segment_cycle.
+
+Theorem C10_segment_errors_are_malformed : forall re_ok re_match o E P c sg,
+  post (seg_contains re_ok re_match o E P c (seg_fuel E) [] sg) clause_err_ok.
+Proof. exact post_seg_top. Qed.
+Print Assumptions C10_segment_errors_are_malformed.
